@@ -63,6 +63,23 @@ def gen_c18(tier, rng):
                     s2 = bytearray(suf); s2[pos] ^= 0x10
                     cases.append(f"ispre x={hexs(h)} y={hexs(bytes(p2))} ax={pos % 8} ay={nn % 8}")
                     cases.append(f"issuf x={hexs(h)} y={hexs(bytes(s2))} ax={pos % 8} ay={nn % 8}")
+    # every pair of operands of 0..3 bytes over {0x60,0x61,0x62,0x63} (differences 1^2^3 = 0, a+b = b+a, ...): folds of
+    # per-byte differences with ^ or + instead of | are exact on single differences only  (seeded change C18-d)
+    small = words(bytes([0x60, 0x61, 0x62, 0x63]), 3)
+    for xi, xx in enumerate(small):
+        for yi, yy in enumerate(small):
+            if tier == "quick" and len(xx) == 3 and len(yy) == 3 and (xi * 7 + yi) % 3:
+                continue
+            if len(xx) == len(yy):
+                cases.append(f"iseq x={hexs(xx)} y={hexs(yy)} ax={xi % 8} ay={yi % 8}")
+            if len(yy) >= 2:
+                cases.append(f"ispre x={hexs(xx + b'zz')} y={hexs(yy)} ax={xi % 8} ay={yi % 8}")
+                cases.append(f"issuf x={hexs(b'zz' + xx)} y={hexs(yy)} ax={xi % 8} ay={yi % 8}")
+    for (xx, yy) in ((bytes([0x80, 0x00]), bytes([0x00, 0x80])), (bytes([0xff, 0x00, 0xff]), bytes([0x00, 0xff, 0x00])),
+                     (bytes([1, 2, 3, 0]), bytes([0, 0, 0, 0])), (bytes([0x7f, 0x80, 0xff]), bytes([0x80, 0x7f, 0xff]))):
+        for op in ("iseq", "ispre", "issuf"):
+            cases.append(f"{op} x={hexs(xx)} y={hexs(yy)}")
+            cases.append(f"{op} x={hexs(xx + xx)} y={hexs(yy)}")
     # aliasing operands: both slices are views of ONE buffer (same start and different lengths, empty views,
     # overlapping windows of a periodic buffer, the buffer against itself)  (seeded change C18-b)
     for n in (0, 1, 2, 3, 4, 5, 7, 8, 9, 16, 17, 33):
@@ -150,6 +167,12 @@ def gen_c19(tier, rng):
         x = bytes([(i * 7) % 256 for i in range(n)])
         for (i1, i2) in [(0, 1), (1, 0), (n - 1, 0), (0, n - 1), (min(n - 1, 254), min(n - 2, 253)), (min(n - 1, 255), 0), (1, 1), (n, 0)]:
             if 0 <= i1 <= 255 and 0 <= i2 <= 255:
+                for isa in ("portable", "sse2", "avx2"):
+                    cases.append(f"pppair isa={isa} x={hexs(x)} i1={i1} i2={i2}")
+    # needles with repeated bytes, pairs in both orders (both offsets may select the same byte value)
+    for x in (b"foobar", b"aaaa", b"abab", b"zzzzzzzzzzzzzzzzzzzzzzzzzzzzzzzzzzzzzzzz", bytes([0, 0xff, 0, 0xff, 0x80, 0x80])):
+        for i1 in range(len(x) if len(x) < 8 else 4):
+            for i2 in range(len(x) if len(x) < 8 else 4):
                 for isa in ("portable", "sse2", "avx2"):
                     cases.append(f"pppair isa={isa} x={hexs(x)} i1={i1} i2={i2}")
     # Finder::new(needle) (i1 = i2 = 255 is the marker): the pair of Pair::new, reported back by pair()
@@ -396,7 +419,20 @@ def gen_c07(tier, rng):
         if n >= 2:
             pre = "".join(rng.choice("NB") for _ in range(rng.randrange(0, 4)))
             near.append(f"iter be={BACKENDS_X86[j % len(BACKENDS_X86)].split(':')[0]} ns={nb:02x} a={rng.randrange(64)} h={hexs(h)} ops={pre}C")
-    return gen_memchr("count", tier, rng) + its + extra + near
+    # long haystacks with a match at the same offset of every word / vector (periods 1, 2, 4, 8, 16, 32) for more than
+    # 256 words / vectors: per-lane partial counters that are summed too rarely overflow  (seeded change C07-d)
+    dense = []
+    for j, (n, per) in enumerate([(2047, 1), (2048, 1), (2049, 8), (2600, 8), (4100, 4), (4100, 2), (8300, 1), (8300, 16), (8300, 32), (9000, 8)]):
+        for off in (0, 3):
+            h = bytes((0x61 if (i % per) == off % per else 0x78) for i in range(n))
+            for be0 in BACKENDS_X86:
+                be = be0.split(":")[0]
+                cpu = (" cpu=" + be0.split(":")[1]) if ":" in be0 else ""
+                if tier == "quick" and (j + len(be0)) % 2:
+                    continue
+                dense.append(f"count be={be}{cpu} ns=61 a={(j * 5 + off) % 64} h={hexs(h)}")
+                dense.append(f"iter be={be}{cpu} ns=61 a={(j * 3 + off) % 64} h={hexs(h)} ops=NBNC")
+    return gen_memchr("count", tier, rng) + its + extra + near + dense
 
 def oracle_c07(op, kv, res, trace, flags):
     return oracle_iter(op, kv, res, trace, flags) if op == "iter" else oracle_memchr(op, kv, res, trace, flags)
@@ -460,6 +496,16 @@ def gen_iter(tier, rng, backends=BACKENDS_X86, with_count=True):
         if j % 5 == 0:
             ops = "".join(rng.choice("NB") for _ in range(min(nm, 30))) + "NBNB"
         cases.append(f"iter be={be}{cpu} ns={hexs(bytes(ns))} a={rng.randrange(64)} h={hexs(bytes(h))} ops={ops}")
+        if j % 4 == 1 and ar > 1:
+            # repeated needle bytes in every equality pattern: (a,a), (a,b,a), (a,a,b), (a,b,b), (a,a,a)
+            pats = [[0x61, 0x61]] if ar == 2 else [[0x61, 0x62, 0x61], [0x61, 0x61, 0x62], [0x61, 0x62, 0x62], [0x61, 0x61, 0x61], [0x00, 0xff, 0x00]]
+            ns2 = pats[(j // 4) % len(pats)]
+            h2 = bytearray(h)
+            for q in range(0, len(h2), 3):
+                h2[q] = [0x61, 0x62, 0x00, 0xff, 0x78][(q // 3 + j) % 5]
+            nm2 = sum(1 for x in h2 if x in ns2)
+            ops2 = "".join(rng.choice("NB" + ("S" if j % 8 == 1 else "")) for _ in range(min(nm2 + 3, 40)))
+            cases.append(f"iter be={be}{cpu} ns={hexs(bytes(ns2))} a={rng.randrange(64)} h={hexs(bytes(h2))} ops={ops2}")
         if be == "top" and j % 2 == 0:
             # memrchr_iter / memrchr2_iter / memrchr3_iter (Rev adaptor); count goes through the adaptor, so no C
             cases.append(f"iter be=top{cpu} rev=1 ns={hexs(bytes(ns))} a={rng.randrange(64)} h={hexs(bytes(h))} ops={ops.replace('C', 'S')}")
@@ -584,6 +630,16 @@ def rk_collision_cases():
             y = bytearray(x); y[k - 1] ^= 0xFF                     # differs only outside the hashed tail
             h = bytes(y) + b"\x00" * 5 + x + bytes(y)
             cases.append((x, h)); cases.append((x, bytes(y) * 2 + b"\x01"))
+    # hash values with the high bits set: a run of >= 31 equal bytes b followed by a byte >= 2b drives the u32 hash to
+    # 2^32 - small, so the next doubling / addition wraps (it must wrap silently: wrapping_shl / wrapping_add)
+    for (b, c) in ((0x20, 0x72), (0x01, 0x80), (0x7f, 0xff), (0x40, 0xff), (0x01, 0x02)):
+        for run in (31, 32, 33, 45):
+            x = bytes([b]) * run + bytes([c]) + b"eturn"
+            cases.append((x, b"--" + x + b"--"))
+            cases.append((x, bytes([b]) * (run + 7) + bytes([c]) + b"eturn" + b"!"))
+            xr = bytes([c]) + bytes([b]) * run                       # reverse hashing runs right to left
+            cases.append((xr, b"q" + xr + b"q" * 3))
+            cases.append((b"abcdefghijklmnopqrstuvwxyzabcdefg", bytes([b]) * (run + 14) + bytes([c]) + b"abcdefghijklmnopqrstuvwxyzabcdefg"))
     return cases
 
 def gen_blocks(tier, rng):
@@ -1232,6 +1288,12 @@ def gen_c08(tier, rng):
         cases.append(f"mmiter dir=r k={n_r + 3} x={hexs(x)} h={hexs(h)} a={(k * 3) % 64}")
         if n_f > 2:
             cases.append(f"mmiter dir=f cfg={cfg} rank={rk}{cpus} k={n_f // 2} x={hexs(x)} h={hexs(h)}")
+        if k % 4 == 0:
+            # the traversal continues on into_owned() of the partially consumed (or exhausted) iterator
+            for own in sorted(set([0, 1, n_f // 2, n_f, n_f + 1])):
+                cases.append(f"mmiter dir=f cfg={cfg} rank={rk}{cpus} own={own} k={n_f + 3} x={hexs(x)} h={hexs(h)} a={(k * 3) % 64}")
+            for own in sorted(set([1, n_r // 2, n_r, n_r + 1])):
+                cases.append(f"mmiter dir=r own={own} k={n_r + 3} x={hexs(x)} h={hexs(h)} a={(k * 3) % 64}")
     return cases
 
 def oracle_c08(op, kv, res, trace, flags):
@@ -1271,7 +1333,8 @@ def nontrivial_c08(op, kv):
 def gen_c16(tier, rng):
     quick = tier == "quick"
     cases = []
-    needles = [b"", b"a", b"ab", b"aba", b"foo", bytes(range(1, 20)), b"xy" + b"z" * 40, b"ab" * 20 + b"c", bytes(range(1, 41))]
+    needles = [b"", b"a", b"ab", b"aba", b"foo", bytes(range(1, 20)), b"xy" + b"z" * 40, b"ab" * 20 + b"c", bytes(range(1, 41)),
+               b"\xff", b"\x00", b"\x80", b"\xff\xff", b"\x00\xff\x80", bytes([0xff]) * 33]
     n_hist = 400 if quick else 6000
     k = 0
     for x in needles:
